@@ -13,22 +13,55 @@ Proof.
   destruct (run_sync_gen frepr cf all (i_opts i) (i_entry i) (i_src i) (i_dst i)). reflexivity.
 Qed.
 
-(* a cloned job is byte-identical to the source job, path by path *)
-Lemma clone_paths : forall frepr cf o id sd ws p,
+(* ------------------------------------------------------------------ the directory a clone produces *)
+Definition prune_top_list (ex_top ex : str -> bool) :=
+  (fix go (l : list (str * node)) : list (str * node) :=
+     match l with [] => [] | (k, x) :: l' => if ex_top k then go l' else (k, prune ex x) :: go l' end).
+
+Lemma alookup_prune_top_list : forall ex_top ex k es,
+  alookup k (prune_top_list ex_top ex es) =
+  if ex_top k then None else match alookup k es with Some x => Some (prune ex x) | None => None end.
+Proof.
+  induction es as [|[k' x'] es IH]; simpl; [destruct (ex_top k); reflexivity|].
+  destruct (ex_top k') eqn:Ek'.
+  - rewrite IH. destruct (str_eqb k k') eqn:E; [|reflexivity].
+    apply str_eqb_eq in E. subst. rewrite Ek'. reflexivity.
+  - simpl. destruct (str_eqb k k') eqn:E; [|apply IH].
+    apply str_eqb_eq in E. subst. rewrite Ek'. reflexivity.
+Qed.
+
+Lemma lookup_prune_top : forall ex_top ex k q es,
+  lookup_path (k :: q) (prune_top ex_top ex (Dir es)) =
+  if ex_top k then None
+  else match alookup k es with Some x => lookup_path q (prune ex x) | None => None end.
+Proof.
+  intros. simpl.
+  change ((fix go (l : list (str * node)) : list (str * node) :=
+             match l with [] => [] | (k, x) :: l' => if ex_top k then go l' else (k, prune ex x) :: go l' end) es)
+    with (prune_top_list ex_top ex es).
+  rewrite alookup_prune_top_list. destruct (ex_top k); [reflexivity|]. destruct (alookup k es); reflexivity.
+Qed.
+
+(* a cloned job is the source job, path by path, without what the patterns exclude: directly in the job directory
+   a user pattern that is not one of the job's own two files, below it any user pattern *)
+Lemma clone_paths : forall frepr cf o id sd ws k q,
+  fix_keep cf = true ->
   o_dry_run o = false -> alookup id ws = None ->
-  fix_excl cf = false \/ forallb (fun k => negb (clone_excl o k)) p = true ->
-  lookup_path (id :: p) (Dir (fst (clone_or_sync frepr cf o (id, Dir sd) ws)))
-  = match lookup_path p (Dir sd) with
-    | Some y => Some (touch (if fix_excl cf then prune (clone_excl o) y else y))
+  fix_excl cf = false \/ (clone_excl o k = false /\ forallb (fun n => negb (o_exclude o n)) q = true) ->
+  lookup_path (id :: k :: q) (Dir (fst (clone_or_sync frepr cf o (id, Dir sd) ws)))
+  = match lookup_path (k :: q) (Dir sd) with
+    | Some y => Some (touch (if fix_excl cf then prune (o_exclude o) y else y))
     | None => None
     end.
 Proof.
-  intros frepr cf o id sd ws p Hdry Hn Hp. rewrite (clone_exact frepr cf o id sd ws Hdry Hn). cbn [fst].
+  intros frepr cf o id sd ws k q Hkeep Hdry Hn Hp. rewrite (clone_exact frepr cf o id sd ws Hdry Hn). cbn [fst].
   rewrite lookup_snoc_new by assumption. rewrite lookup_path_touch.
   destruct (fix_excl cf).
-  - destruct Hp as [Hp|Hp]; [discriminate|]. rewrite lookup_path_prune_keep by assumption.
-    destruct (lookup_path p (Dir sd)); reflexivity.
-  - destruct (lookup_path p (Dir sd)); reflexivity.
+  - destruct Hp as [Hp|[Hk Hq]]; [discriminate|].
+    unfold clone_prune. rewrite Hkeep. rewrite lookup_prune_top. fold (clone_excl o k). rewrite Hk.
+    rewrite lookup_path_cons. destruct (alookup k sd) as [x|]; [|reflexivity].
+    rewrite lookup_path_prune_keep by assumption. destruct (lookup_path q x); reflexivity.
+  - destruct (lookup_path (k :: q) (Dir sd)); reflexivity.
 Qed.
 
 From SV Require Export SyncIdemProofs SyncFlatProofs.
@@ -76,18 +109,18 @@ Proof. reflexivity. Qed.
 Lemma excluded_below_current : forall o n, excluded cfg_current (set_top o false) n = o_exclude o n.
 Proof. intros. unfold excluded, cfg_current, fix_own. cbn [o_top set_top o_exclude]. apply orb_false_r. Qed.
 
-(* /repo as it is (74ea1a0): a cloned job is the source job without whatever matches a user exclude pattern *)
-Lemma clone_paths_current : forall frepr o id sd ws p,
+(* /repo as it is (74ea1a0, 618e7cc) *)
+Lemma clone_paths_current : forall frepr o id sd ws k q,
   o_dry_run o = false -> alookup id ws = None ->
-  forallb (fun k => negb (clone_excl o k)) p = true ->
-  lookup_path (id :: p) (Dir (fst (clone_or_sync frepr cfg_current o (id, Dir sd) ws)))
-  = match lookup_path p (Dir sd) with
-    | Some y => Some (touch (prune (clone_excl o) y))
+  clone_excl o k = false -> forallb (fun n => negb (o_exclude o n)) q = true ->
+  lookup_path (id :: k :: q) (Dir (fst (clone_or_sync frepr cfg_current o (id, Dir sd) ws)))
+  = match lookup_path (k :: q) (Dir sd) with
+    | Some y => Some (touch (prune (o_exclude o) y))
     | None => None
     end.
 Proof.
-  intros frepr o id sd ws p Hdry Hn Hp.
-  apply (clone_paths frepr cfg_current o id sd ws p Hdry Hn). right. assumption.
+  intros frepr o id sd ws k q Hdry Hn Hk Hq.
+  apply (clone_paths frepr cfg_current o id sd ws k q eq_refl Hdry Hn). right. split; assumption.
 Qed.
 
 (* 4239e5d: a walk that returns met no file / directory clash that was not excluded *)
